@@ -115,6 +115,23 @@ def ropebounds_witness(prop, failures, repo, verif, workdir, seed, log):
     return {"found": False, "inputs_tried": r["tried"], "search_s": round(time.time() - t0, 1)}
 
 
+def c19_witness(prop, failures, repo, verif, workdir, seed, log):
+    if any("rope_degenerate" in f.name for f in failures):
+        t0 = time.time()
+        try:
+            binary = twin.build(repo, verif, workdir, log)
+        except Exception as e:
+            return {"found": False, "error": str(e)[:600]}
+        r = twin.run(binary, ["search-ropedegenerate", seed + 1], timeout=60)
+        if r["found"]:
+            r["kind"] = "ropedegenerate"
+            log(f"  witness (search-ropedegenerate): Rope::from_iter shape:range {r['input']}: {r['detail']}")
+            return {"found": True, "kind": "ropedegenerate", "input": r["input"], "detail": r["detail"], "inputs_tried": r["tried"], "search_s": round(time.time() - t0, 1),
+                    "replays_on": "real crate built from the checked tree (debug build: std checks the precondition of get_unchecked and aborts)"}
+        return {"found": False, "inputs_tried": r["tried"], "search_s": round(time.time() - t0, 1)}
+    return codec_witness(prop, failures, repo, verif, workdir, seed, log)
+
+
 def mixed_witness(prop, failures, repo, verif, workdir, seed, log):
     if any("rope_bounds" in f.name for f in failures):
         return ropebounds_witness(prop, failures, repo, verif, workdir, seed, log)
@@ -134,7 +151,7 @@ def replay(prop, path, repo, verif, workdir, log):
     if not w.get("found"):
         return None
     binary = twin.build(repo, verif, workdir, log)
-    kind = {"enc": "replay-enc", "lines": "replay-lines", "dec": "replay-dec", "replace": "replay-replace", "eqhash": "replay-eqhash", "wildmap": "replay-wildmap", "tokens": "replay-tokens", "ropebounds": "replay-ropebounds"}[w["kind"]]
+    kind = {"enc": "replay-enc", "lines": "replay-lines", "dec": "replay-dec", "replace": "replay-replace", "eqhash": "replay-eqhash", "wildmap": "replay-wildmap", "tokens": "replay-tokens", "ropebounds": "replay-ropebounds", "ropedegenerate": "replay-ropedegenerate"}[w["kind"]]
     inp = w["input"]
     if w["kind"] == "dec":
         import ast
@@ -147,4 +164,7 @@ def replay(prop, path, repo, verif, workdir, log):
         log("REPRODUCED: the real code does not return within 60 s on the recorded input (hang)")
         return True
     log(p.stdout.strip())
+    if p.returncode < 0 or p.returncode == 134:
+        log("REPRODUCED: the process aborts on the recorded input (" + (p.stderr.strip().splitlines() or ["signal"])[0][:200] + ")")
+        return True
     return p.returncode == 1
